@@ -508,6 +508,62 @@ class AdaptedTree1dInit(FunctionContract):
                 "right-axis-covers-states-origin+1..n-1": And(f["_coordinates_right_axis"][0] == o + 1, f["_coordinates_right_axis"][1] == ax.length - 1)}
 
 
+class Neighbours(FunctionContract):
+    """left_point / right_point for every coordinate type: per axis k, the neighbouring state ON AXIS k (clamped at the
+    ends); axes may differ from one another (credit grids) but have equal length, as every constructor produces."""
+    prop = "C01"
+    cases = tuple((fn, kind) for fn in ("left_point", "right_point") for kind in ("int", "Coordinate1D", "CoordinateND2", "CoordinateND3"))
+
+    def __init__(self):
+        self.name = "CTMCGrid.left/right_point"
+        self.target = SP + "CTMCGrid.left_point"
+
+    def make_unit(self, case, interp_factory):
+        self.target = SP + "CTMCGrid." + case[0]
+        return super().make_unit(case, interp_factory)
+
+    def setup(self, vc, case):
+        fn, kind = case
+        d = int(kind[-1]) if kind.startswith("CoordinateND") else 1
+        axes = [vc.seq(f"axis{k}", "r", min_len=3) for k in range(d)]
+        n = axes[0].length
+        for a_ in axes[1:]:
+            vc.assume(a_.length == n)
+        cs = vc.ints("c", d)
+        vc.assume(And(*[And(c >= 0, c < n) for c in cs]))
+        grid = vc.obj(SP + "CTMCGrid", axes=axes, dimension=d)
+        coord = cs[0] if kind == "int" else (vc.new(GR + "Coordinate1D", cs[0]) if kind == "Coordinate1D" else vc.new(GR + "CoordinateND", list(cs)))
+        vc.ghost.update(axes=axes, cs=cs, fn=fn, d=d, kind=kind)
+        return dict(self=grid, coordinate=coord)
+
+    def ensures(self, result, self_=None, coordinate=None):
+        from pyvc import ctx
+        g = ctx.PATH.ghost
+        axes, cs, fn, d = g["axes"], g["cs"], g["fn"], g["d"]
+        n = axes[0].length
+        want = [ax.raw(smax(c - 1, 0)) if fn == "left_point" else ax.raw(smin(c + 1, n - 1)) for ax, c in zip(axes, cs)]
+        if g["kind"].startswith("CoordinateND"):
+            ok = isinstance(result, tuple) and len(result) == d
+            return {"one-value-per-axis": ok, "neighbour-on-the-same-axis": And(*[r == w for r, w in zip(result, want)]) if ok else False}
+        return {"neighbour-on-the-axis": result == want[0]}
+
+    def replay(self, model, clause, case):
+        from rpylib.grid.spatial import CTMCGrid
+        from rpylib.grid.grid import Coordinates
+        fn, kind = case
+        if not kind.startswith("CoordinateND"):
+            return None
+        d = int(kind[-1])
+        axes = [np.array([-1.0 - k, -0.5 - 0.1 * k, -0.25, 0.0, 0.25, 0.6 + 0.1 * k, 2.0 + k]) for k in range(d)]
+        g = CTMCGrid(h=0.25, origin_coordinate=3, axes=axes)
+        for cs in ([1] * d, list(range(1, d + 1)), [6] * d, [0] * d):
+            got = getattr(g, fn)(Coordinates(cs))
+            want = tuple(ax[max(c - 1, 0)] if fn == "left_point" else ax[min(c + 1, len(ax) - 1)] for ax, c in zip(axes, cs))
+            if tuple(float(x) for x in got) != tuple(float(x) for x in want):
+                return (True, {"coordinate": cs, "native": [float(x) for x in got], "expected": [float(x) for x in want]})
+        return (False, {})
+
+
 class AdjacentImpliesTransitive(Lemma):
     """ax[k] < ax[k+1] for all k  ==>  ax[i] < ax[j] for all i < j  (induction on j; base and step obligations)"""
     prop = "C01"
@@ -526,7 +582,7 @@ class AdjacentImpliesTransitive(Lemma):
 
 
 UNITS = [QVector(), Tiling(), Telescoping(), Intensity1d(), IntensityNd(), JumpVector(), InversionProbability(), AdjacentImpliesTransitive(),
-         TruncatedInterval(), TruncatedIntegrate(), TruncatedDensity(), AdaptedTree1dInit()]
+         TruncatedInterval(), TruncatedIntegrate(), TruncatedDensity(), AdaptedTree1dInit(), Neighbours()]
 ASSUMPTIONS = ["A1: floats are mathematical reals", "A6: the model's integrate(a,b) is an additive non-negative interval function MU (established per model in C09)",
                "the grid is well formed (C13's postcondition is this contract's precondition)"]
 TRUSTED_BASE = ["z3 5.1 (LRA + arrays + uninterpreted MU)", "pyvc interpreter + numpy models"]
@@ -607,3 +663,10 @@ class RatesBattery:
 
 
 BOUNDED = [RatesBattery()]
+
+
+def LATE_UNITS():
+    """the chain constructor's frame clauses (deep copy, truncation of the copy only) are stated in C04's module; they are
+    part of C01 as well: the rates are those of the measure truncated to THIS grid, whatever chains were built before"""
+    import importlib
+    return [importlib.import_module("contracts.c04").ChainConstructor()]
